@@ -202,6 +202,13 @@ struct FltVal : LedgeredT<5>
 	explicit FltVal(int id_) : LedgeredT<5>(kAuxBase + id_) {}
 	bool operator() (std::string & s, int & a) const { touch(); return onFilter(id - kAuxBase, a, s, true); }
 };
+// condition taking its arguments by value: conditionalFunctor must evaluate it on the dispatched values and still hand
+// those values to the wrapped listener
+struct CndVal
+{
+	int id;
+	bool operator() (std::string s, int a) const { return onCondition(id, a, s); }
+};
 template <bool IsQueue>
 struct ContVal : IF
 {
@@ -211,12 +218,16 @@ struct ContVal : IF
 	std::vector<typename D::Handle> lh;
 	bool hasFilters() const override { return true; }
 	bool canWriteA() const override { return true; }
-	int listenerKinds() const override { return 1; }
+	int listenerKinds() const override { return 2; }
 	int countMixin() const override { return 0; }
 	bool continueByValue() const override { return true; }
 	void appendFilter(int id) override { fh.push_back(d.appendFilter(FltVal(id))); }
 	bool removeFilter(int h) override { return d.removeFilter(fh[(size_t)h]); }
-	void addListener(int key, int id, int, int how) override { lh.push_back(how & 1 ? d.prependListener(key, LstVal(id)) : d.appendListener(key, LstVal(id))); }
+	void addListener(int key, int id, int kind, int how) override {
+		typename D::Callback cb;
+		if(kind == 1) cb = eventpp::conditionalFunctor(LstVal(id), CndVal { id }); else cb = LstVal(id);
+		lh.push_back(how & 1 ? d.prependListener(key, cb) : d.appendListener(key, cb));
+	}
 	bool removeListener(int key, int h) override { return d.removeListener(key, lh[(size_t)h]); }
 	void go(int key, Args & c, std::true_type, bool queued) { if(queued) { d.enqueue(key, c.s, c.a); d.process(); } else d.dispatch(key, c.s, c.a); }
 	void go(int key, Args & c, std::false_type, bool) { d.dispatch(key, c.s, c.a); }
@@ -398,6 +409,8 @@ struct Interp
 		bool r = ((a + (int)s.size()) % 3) != lspec[(size_t)id].rule % 3;
 		log << " c" << id << "=" << r;
 		if(r) f.pendingCond = id; else condFalse = true;
+		// the policy is consulted after every callback of the list, also one whose wrapped listener did not run
+		if(! r && impl->continueByValue() && f.cur.a < 0) { f.stopped = true; stoppedByPolicy = true; }
 		return r;
 	}
 
